@@ -180,6 +180,8 @@ def valid_case(case):
     try:
         if case["kind"] == "expr":
             return (case["ast"] == ["true"] or valid_ast(case["ast"])) and case["form"] in ("text", "list")
+        if case["kind"] == "glob":
+            return isinstance(case.get("pattern"), str) and bool(case["pattern"])
         if case["kind"] == "placeholder":
             t = case["template"]
             return (valid_ast(case["config"]) and case["via"] in VIAS
@@ -198,7 +200,57 @@ def check(case):
         return check_expr(case)
     if kind == "placeholder":
         return check_placeholder(case)
+    if kind == "glob":
+        return check_glob(case)
     raise ValueError(kind)
+
+
+GLOB_TAG_ALPHABET = "ab."
+
+
+def glob_tags():
+    import itertools
+    tags = []
+    for n in range(1, 4):
+        for tup in itertools.product(GLOB_TAG_ALPHABET, repeat=n):
+            tags.append("".join(tup))
+    return tags
+
+
+def check_glob(case):
+    """One wildcard pattern as the whole expression, evaluated on every single-tag set over a small
+    alphabet (complete): a wildcard operand is true iff some tag matches the pattern as a whole."""
+    from behave.tag_expression import make_tag_expression, TagExpressionProtocol
+    from ..core import CaseResult
+    res = CaseResult()
+    pattern = case["pattern"]
+    try:
+        expr = make_tag_expression(pattern, TagExpressionProtocol.V2)
+    finally:
+        TagExpressionProtocol.use(TagExpressionProtocol.DEFAULT)
+    tags = glob_tags()
+    res.evals = len(tags)
+    for tag in tags:
+        want = tagref.glob_match(pattern, tag)
+        got = bool(expr.check([tag]))
+        if got != want:
+            res.fail("C07.wildcard.match", "pattern %r on tag %r: behave says %s, a whole-tag wildcard match is %s"
+                     % (pattern, tag, got, want))
+            break
+    res.label("glob-edge")
+    res.nontrivial = pattern.count("*") + pattern.count("?") >= 1 and len(pattern) >= 2
+    if any(pattern.startswith(c) and pattern.endswith(c) for c in "ab.") and "*" in pattern:
+        res.label("glob-edge:overlap-candidate")
+    return res
+
+
+def glob_cases(max_len=4):
+    import itertools
+    for n in range(1, max_len + 1):
+        for tup in itertools.product("ab.*?", repeat=n):
+            pat = "".join(tup)
+            if "*" in pat or "?" in pat:
+                yield {"kind": "glob", "pattern": pat}
 
 
 def check_expr(case):
@@ -506,13 +558,14 @@ def explore(rec):
     rec.enum("placeholder/small-configs-x-templates", placeholder_enum(ENUM_OPERANDS, 3 if quick else 4))
     rec.hyp("placeholder/random", placeholder_st(), 6000 if quick else 120000)
     rec.enum("escaped-operands", escaped_cases())
+    rec.enum("wildcard-patterns<=%d x all tags<=3" % (4 if quick else 5), glob_cases(4 if quick else 5))
 
 
 def required_labels(tier):
     return ["empty", "form:text", "form:list", "wildcard", "wildcard:case-pair-distinguished", "literal:dot-dash-eq",
             "rendering:at", "rendering:extra-parens", "rendering:extra-blanks", "operators>=2", "negation",
             "depth:3", "depth:5", "placeholder:substituted", "placeholder:no-command-line-tags",
-            "escaped-wildcard", "escaped-literal"] + ["placeholder:" + v for v in VIAS]
+            "escaped-wildcard", "escaped-literal", "glob-edge", "glob-edge:overlap-candidate"] + ["placeholder:" + v for v in VIAS]
 
 
 KNOWN_PREDICATES = {}
